@@ -29,7 +29,7 @@ import (
 func concChannels(off map[string]bool) []channel {
 	var out []channel
 	for _, ch := range channels {
-		if ch.Group == 't' && ch.Store == "" && ch.Name[0] == 't' && ch.Identity && !off[ch.Name] {
+		if ch.Group == 't' && ch.Store == "" && ch.Name[0] == 't' && ch.Identity && !ch.Put && !off[ch.Name] {
 			out = append(out, ch)
 		}
 	}
@@ -64,15 +64,12 @@ func concMain(args []string) {
 	// sequential set-up through the ordinary executor plumbing
 	c := Case{ID: "conc", Temps: 1, Names: 1}
 	res := caseResult{}
-	x := &executor{c: c, off: off, dir: dir, m: NewModel(1), prev: map[string]string{}, res: &res, seen: map[string]bool{}, defined: map[int]bool{}, dead: map[uintptr]bool{}}
+	x := &executor{c: c, off: off, dir: dir, m: NewModel(1), prev: map[string]string{}, res: &res, seen: map[string]bool{}, defined: map[int]bool{}, dead: map[uintptr]bool{}, valOwners: map[string][]int{}}
 	data.WriteOutput = func(s string) {}
 	x.base, x.bp = ori.NewVM()
 	x.base.SetThrowControl(func(acl data.Control) {})
-	for n := 0; n < c.Names; n++ {
-		_ = os.WriteFile(filepath.Join(dir, fmt.Sprintf("def_%d.php", sharedSerial(n))), []byte(declClosureFile(n)), 0o644)
-	}
 	x.temps = make([]*runtime.TempVM, 2)
-	if _, et := x.runScript(0, prelude(c.Names, off, dir), filepath.Join(dir, "prelude.php")); et != "" {
+	if _, et := x.runScript(0, prelude(c.Names, off), filepath.Join(dir, "prelude.php")); et != "" {
 		emit(record{T: "V", Case: "conc", Key: "setup-failed", What: "concurrent phase: prelude failed: " + et})
 		emit(record{T: "E", Case: "conc"})
 		return
